@@ -9,6 +9,7 @@ mod c10;
 mod c12;
 mod c13;
 mod c16;
+mod compose;
 mod decode;
 mod framed;
 mod packet_window;
@@ -48,6 +49,7 @@ fn dispatch(entry: &str, spec: &Value) -> Result<Option<String>, String> {
         "client_udp_refused_id" => ss_udp::client_refused_id(spec),
         "decode" => decode::run(spec),
         "framed" => framed::run(spec),
+        "compose" => compose::run(spec),
         "address_roundtrip" => address::roundtrip(spec),
         "validate_timestamp" => c10::validate_timestamp(spec),
         "vmess_matching" => c10::vmess_matching(spec),
